@@ -52,6 +52,11 @@ func (f *visitFilter) step(point string, args []interface{}) (dbgVisit, bool) {
 		kind = "in"
 	case "debug.stepout":
 		kind = "out"
+		if len(args) > 2 && args[2] != nil {
+			if e, ok := args[2].(error); ok && e != nil {
+				kind = "outerr"
+			}
+		}
 	default:
 		return dbgVisit{}, false
 	}
@@ -76,6 +81,10 @@ var c15Progs = []string{
 	strings.Repeat("\n", 20) + "a := 1\nb := a + 1\nc := b\n",
 }
 var c15Lines = [][]int{{3, 7, 10}, {22}}
+
+// a program whose error leaves two frames before it is caught (break on error suspends where it leaves the first)
+var c15ErrProg = "x := 1\nfunc g(p) {\n    raise(\"E\", \"d\")\n}\nfunc f(q) {\n    w := g(q)\n    return w\n}\ntry {\n    y := f(x)\n} except e {\n    z := 2\n}\nv := 3\n"
+var c15ErrLines = []int{3, 6, 12}
 
 type dbgRig struct {
 	erp  *interpreter.ECALRuntimeProvider
@@ -116,6 +125,7 @@ func recordVisits(progs []string) ([][]dbgVisit, error) {
 	if err != nil {
 		return nil, err
 	}
+	rig.dbg.BreakOnError(false) // nobody continues the dry run
 	out := make([][]dbgVisit, len(progs))
 	flt := newVisitFilter()
 	var mu sync.Mutex
@@ -229,7 +239,7 @@ func followDebugger(progs []string, visits [][]dbgVisit, steps []dbgStep, strict
 	}
 	pendingIn := make([]bool, len(progs))
 	killing := false
-	point := map[string]string{"visit": "debug.visit", "in": "debug.stepin", "out": "debug.stepout"}
+	point := map[string]string{"visit": "debug.visit", "in": "debug.stepin", "out": "debug.stepout", "outerr": "debug.stepout"}
 	where := func(st *sched.Stable, k int) string {
 		ts, _ := st.Get(names[k])
 		switch {
@@ -265,7 +275,7 @@ func followDebugger(progs []string, visits [][]dbgVisit, steps []dbgStep, strict
 		}
 		k := step.T - 1
 		switch step.A {
-		case "Visit", "StepIn", "StepOut":
+		case "Visit", "StepIn", "StepOut", "StepOutErr":
 			if step.A == "StepIn" && pendingIn[k] {
 				pendingIn[k] = false // the real thread completed the entry when it was resumed
 				break
@@ -635,6 +645,26 @@ func C15(r *ev.Run) {
 			Opt: tlc.Options{Module: "MCDbgRun", Config: "run.cfg", Timeout: 30 * time.Minute, Workers: 1,
 				Args: []string{"-simulate", fmt.Sprintf("num=%d", pick(tier, 250, 2500)), "-depth", "400", "-seed", strconv.FormatInt(r.Seed+1, 10)}}},
 	}
+	evisits, eerr := recordVisits([]string{c15ErrProg})
+	if eerr != nil || len(evisits[0]) < 8 {
+		r.Inconclusive(fmt.Sprintf("cannot record the visits of the error program: %v", eerr))
+		return
+	}
+	hasErrOut := false
+	for _, v := range evisits[0] {
+		hasErrOut = hasErrOut || v.K == "outerr"
+	}
+	if !hasErrOut {
+		r.Inconclusive("the error program does not return an error through the debugger's step-out visit")
+		return
+	}
+	modE := renderDbgMC(evisits, c15ErrLines)
+	jobs = append(jobs,
+		&MCJob{Name: "code-error", Files: map[string]string{"MCDbgRun.tla": modE, "run.cfg": dbgCfg("code", false, cmds, "TypeOK", "NoLostWakeup", "ReportedIsSuspended", "BreakpointsSuspend")},
+			Opt: tlc.Options{Module: "MCDbgRun", Config: "run.cfg", Timeout: 30 * time.Minute}},
+		&MCJob{Name: "sim-error", Files: map[string]string{"MCDbgRun.tla": modE, "run.cfg": dbgCfg("code", true, 9, "Export")},
+			Opt: tlc.Options{Module: "MCDbgRun", Config: "run.cfg", Timeout: 30 * time.Minute, Workers: 1,
+				Args: []string{"-simulate", fmt.Sprintf("num=%d", pick(tier, 200, 2000)), "-depth", "400", "-seed", strconv.FormatInt(r.Seed+2, 10)}}})
 	if !runMCParallel(r, jobs, 3) {
 		return
 	}
@@ -642,7 +672,7 @@ func C15(r *ev.Run) {
 	for _, j := range jobs {
 		byName[j.Name] = j
 	}
-	for _, n := range []string{"code", "code-2threads"} {
+	for _, n := range []string{"code", "code-2threads", "code-error"} {
 		if j := byName[n]; j.Res == nil || !j.Res.OK {
 			r.Drift("the model of the debugger as it is violates its invariants (" + n + "): " + j.Res.Describe() + "\n" + j.Res.Tail(15))
 		}
@@ -680,17 +710,21 @@ func C15(r *ev.Run) {
 		}
 	}
 	followed, drifted := 0, 0
-	for _, jn := range []string{"sim", "sim-1thread"} {
-		nprog := 2
-		if jn == "sim-1thread" {
-			nprog = 1
+	for _, jn := range []string{"sim", "sim-1thread", "sim-error"} {
+		fprogs, fvisits := c15Progs, visits
+		switch jn {
+		case "sim-1thread":
+			fprogs, fvisits = c15Progs[:1], visits[:1]
+		case "sim-error":
+			fprogs, fvisits = []string{c15ErrProg}, evisits
 		}
+		nprog := len(fprogs)
 		for _, js := range byName[jn].Res.Printed("BEHAVIOUR") {
 			steps := parseDbgBehaviour(js)
 			if len(steps) < 3 {
 				continue
 			}
-			fr := followDebugger(c15Progs[:nprog], visits[:nprog], steps, true)
+			fr := followDebugger(fprogs, fvisits, steps, true)
 			report("simulated", nprog, steps, fr)
 			followed++
 			if fr.drift != "" {
